@@ -26,8 +26,9 @@ CONSTANTS AllModes      \* TRUE: the flag stratum F is crossed with all five mod
                         \* (the rule stratum R always rotates the mode: the mode only
                         \* selects the synthetic response, independently of precedence)
 
-SvcDom == {<<"4chan", "org">>}
-INSTANCE DnsPipelineCore WITH SvcDomains <- SvcDom
+SvcDom  == {<<"4chan", "org">>}       \* the globally blocked service ("4chan")
+Svc2Dom == {<<"9gag", "com">>}        \* the service of a client's own set ("9gag")
+INSTANCE DnsPipelineCore WITH SvcDomains <- SvcDom, Svc2Domains <- Svc2Dom
 
 VARIABLES cfg, req, p, tab, bk, live
 vars == <<cfg, req, p, tab, bk, live>>
@@ -40,14 +41,20 @@ CHAN  == <<"4chan", "org">>
 \* Queried names: the targets, a sub-subdomain, a look-alike ("xa.com" must
 \* not match ||a.com^), a sibling TLD, an unrelated name, the service.
 QNames == <<ACOM, BACOM, <<"a", "b", "a", "com">>, <<"xa", "com">>, <<"a", "org">>,
-            <<"b", "com">>, CHAN, <<"b", "4chan", "org">>>>
+            <<"b", "com">>, CHAN, <<"b", "4chan", "org">>, <<"9gag", "com">>>>
 QTypes  == <<"A", "AAAA", "HTTPS", "TXT">>
 Clients == <<"c1", "c2">>
 
+\* Every second (name, type) pair is asked over an encrypted protocol with a
+\* ClientID: from address c1 with a ClientID configured for nobody, from
+\* address c2 with the persistent client's ClientID.
+CidOf(i) == IF ((i - 1) \div Len(Clients)) % 2 = 0 THEN ""
+            ELSE IF (i - 1) % Len(Clients) = 0 THEN "x" ELSE "kid"
 Queries == [i \in 1..(Len(QNames) * Len(QTypes) * Len(Clients)) |->
               [name   |-> QNames[((i - 1) \div (Len(QTypes) * Len(Clients))) + 1],
                qtype  |-> QTypes[(((i - 1) \div Len(Clients)) % Len(QTypes)) + 1],
-               client |-> Clients[((i - 1) % Len(Clients)) + 1]]]
+               client |-> Clients[((i - 1) % Len(Clients)) + 1],
+               cid    |-> CidOf(i)]]
 
 ModeSeq == <<"default", "refused", "nxdomain", "null_ip", "custom_ip">>
 
@@ -321,7 +328,7 @@ Stratum02B(b) ==
 \* With the cache on every entry asks its own name under q.com (a cache
 \* answers by question, and the entries differ in the upstream's answer).
 QName02(c, k) == IF c.cache THEN <<"n" \o ToString(k)>> \o QCOM ELSE QCOM
-Req02N(n, qt) == [name |-> n, qtype |-> qt, client |-> "c1"]
+Req02N(n, qt) == [name |-> n, qtype |-> qt, client |-> "c1", cid |-> ""]
 Req02(c, qt)  == Req02N(QCOM, qt)
 QTypesFor(c) == IF c.aaaaOff THEN <<"A", "HTTPS">> ELSE QTypes02
 \* The table of a configuration: one entry per answer section; the query type
@@ -344,12 +351,12 @@ Table02(c) == {Entry02(c, k) : k \in AnsKeys(c)}
 
 \* ----------------------------------------------------------------- actions
 NoCfg == BaseCfg({}, "default")
-NoReq == [name |-> <<>>, qtype |-> "A", client |-> "c2"]
+NoReq == [name |-> <<>>, qtype |-> "A", client |-> "c2", cid |-> ""]
 Idle  == [P0 EXCEPT !.stage = "idle"]
 
 \* The live server: the rule sets installed in its engines, the questions it
 \* has been asked since it was started, and history bounds.
-Live0 == [inst |-> {}, asked |-> {}, nre |-> 0, n |-> 0]
+Live0 == [inst |-> {}, asked |-> {}, nre |-> 0, n |-> 0, np |-> 0]
 Init == cfg = NoCfg /\ req = NoReq /\ p = Idle /\ tab = <<>> /\ bk = <<"", 0>> /\ live = Live0
 
 \* --- SpecMC: the pipeline step by step over a reduced universe
@@ -393,11 +400,12 @@ SpecMC == Init /\ [][NextMC]_vars
 \* -- two Reconfigure steps --, down to the empty allow set and back; another
 \* blocking mode, or the same mode custom_ip with other addresses) and
 \* installs exactly them; Finish returns to
-\* the ready state.  Bounds: 2 reconfigurations, 2 questions.
+\* the ready state.  Bounds: 2 reconfigurations / protection switches, 2 questions.
 HRules == {ById(2, "allow"), ById(1, "block"), Placed(CHOOSE r \in Family02 : r.id = 101, "custom")}
-HConfigs(z) == {[BaseCfg(rs, mc[1]) EXCEPT !.cache = ch, !.cust = mc[2]] :
-                   rs \in SUBSET HRules, ch \in BOOLEAN,
-                   mc \in {<<"default", 1>>, <<"custom_ip", 1>>, <<"custom_ip", 2>>}}
+HModes(ch) == IF ch THEN {<<"default", 1>>}
+              ELSE {<<"default", 1>>, <<"custom_ip", 1>>, <<"custom_ip", 2>>}
+HConfigs(z) == UNION {{[BaseCfg(rs, mc[1]) EXCEPT !.cache = ch, !.cust = mc[2]] :
+                         rs \in SUBSET HRules, mc \in HModes(ch)} : ch \in BOOLEAN}
 HAsks(z) == {[req |-> Queries[2], ans |-> Harmless], [req |-> Queries[11], ans |-> Harmless],
           [req |-> Queries[26], ans |-> Harmless],
           [req |-> Req02N(QCOM, "A"), ans |-> AnsOfP(<<3, 1>>, 2)],       \* A i1 owned by b.com, then CNAME b.com
@@ -420,13 +428,40 @@ Repeat == p.stage = "ready" /\ AskWith(FALSE)
 Finish == /\ p.stage = "done" /\ live.n > 0     \* (not after the one-question behaviours of Pick01/02)
           /\ p' = Ready /\ UNCHANGED <<cfg, req, tab, bk, live>>
 Reconfigure ==
-    /\ p.stage = "ready" /\ live.nre < 2
+    /\ p.stage = "ready" /\ live.np + live.nre < 2
     /\ \E c \in HConfigs(0) :
-         /\ c.cache = cfg.cache /\ c # cfg
-         /\ cfg' = c
+         /\ c.cache = cfg.cache /\ [c EXCEPT !.prot = cfg.prot] # cfg
+         /\ cfg' = [c EXCEPT !.prot = cfg.prot]
          /\ live' = [live EXCEPT !.inst = c.rules, !.nre = @ + 1]   \* BOTH engines rebuilt from c
     /\ UNCHANGED <<req, p, tab, bk>>
-NextHist == Boot \/ Ask \/ Repeat \/ Reconfigure \/ Finish
+\* A reconfiguration that FAILS (a fault while the engines are rebuilt: a list
+\* file that cannot be read) changes nothing: the rule sets installed before
+\* stay installed, the verdicts stay those of the configuration in effect.
+ReconfigureFails == p.stage = "ready" /\ UNCHANGED vars
+\* Protection is switched through either of two entry points: the protection
+\* API (on / off / off for a duration) and the DNS configuration API (the flag
+\* only).  cfg.prot is the resulting state; whether filtering applies depends
+\* only on whether protection is in effect NOW (EffProt).  The statement does
+\* not say what setting the flag through the second API means while a pause
+\* started through the first is still running, or clearing it after a pause
+\* ran out: either state is admitted -- but it is ONE state, for names and
+\* for answers alike.
+ProtOps == {"prot_on", "prot_off", "prot_pause", "prot_pause_ran_out", "dns_on", "dns_off"}
+NextProt(cur, op) ==
+    CASE op = "prot_on"            -> {"on"}
+      [] op = "prot_off"           -> {"off"}
+      [] op = "prot_pause"         -> {"paused"}
+      [] op = "prot_pause_ran_out" -> {"expired"}
+      [] op = "dns_on"             -> IF cur = "paused" THEN {"on", "paused"} ELSE {"on"}
+      [] OTHER                     -> CASE cur = "paused"  -> {"paused"}
+                                        [] cur = "expired" -> {"off", "expired"}
+                                        [] OTHER           -> {"off"}
+ProtAPI ==
+    /\ p.stage = "ready" /\ live.np + live.nre < 2 /\ live.n = 0   \* (bounds; before the questions)
+    /\ \E op \in ProtOps : \E st \in NextProt(cfg.prot, op) : cfg' = [cfg EXCEPT !.prot = st]
+    /\ live' = [live EXCEPT !.np = @ + 1]
+    /\ UNCHANGED <<req, p, tab, bk>>
+NextHist == Boot \/ Ask \/ Repeat \/ Reconfigure \/ ReconfigureFails \/ ProtAPI \/ Finish
               \/ Before \/ Initial \/ FilterBefore \/ Upstream \/ FilterAfter \/ Log
 SpecHist == Init /\ [][NextHist]_vars
 \* DnsPipeline.mc.cfg checks both kinds of behaviours in one run: the
@@ -434,10 +469,18 @@ SpecHist == Init /\ [][NextHist]_vars
 \* histories of one live server (Boot ...).
 SpecAll == Init /\ [][NextMC \/ NextHist]_vars
 
+\* The outcome of every request while protection is not in effect (the same
+\* for all of them: C01ProtectionOffBlocksNothing, C02NotApplicable...); rep:
+\* for a question asked before, with the cache on.
+OffCfg(ch) == [BaseCfg({}, "default") EXCEPT !.prot = "off", !.cache = ch]
+ProtOff(rep) == IF rep THEN VerdictRepeat(OffCfg(TRUE), Queries[1], Harmless)
+                ELSE Verdict(OffCfg(FALSE), Queries[1], Harmless)
+
 \* --- SpecGen01 / SpecGen02: one verdict table per configuration
 Header01 == /\ p.stage = "idle"
             /\ p' = [p EXCEPT !.stage = "hdr"] /\ UNCHANGED <<cfg, req, tab, bk, live>>
-            /\ PrintT(<<"@@V", ToJson([kind |-> "hdr01", queries |-> Queries])>>)
+            /\ PrintT(<<"@@V", ToJson([kind |-> "hdr01", queries |-> Queries,
+                                       protoff |-> ProtOff(FALSE), protoffr |-> ProtOff(TRUE)])>>)
 Bucket01 == /\ p.stage = "idle"
             /\ \E b \in Buckets01 : bk' = b
             /\ p' = [p EXCEPT !.stage = "bucket"] /\ UNCHANGED <<cfg, req, tab, live>>
@@ -453,7 +496,8 @@ SpecGen01 == Init /\ [][NextGen01]_vars
 Header02 == /\ p.stage = "idle"
             /\ p' = [p EXCEPT !.stage = "hdr"] /\ UNCHANGED <<cfg, req, tab, bk, live>>
             /\ PrintT(<<"@@V", ToJson([kind |-> "hdr02", rrs |-> RRs, answers |-> AnsSeq,
-                                       qname |-> QCOM])>>)
+                                       qname |-> QCOM,
+                                       protoff |-> ProtOff(FALSE), protoffr |-> ProtOff(TRUE)])>>)
 Bucket02 == /\ p.stage = "idle"
             /\ \E b \in Buckets02 : bk' = b
             /\ p' = [p EXCEPT !.stage = "bucket"] /\ UNCHANGED <<cfg, req, tab, live>>
